@@ -203,6 +203,9 @@ class P(Prop):
         ("TracklibVerif.Props.C03Before1970", "TV.C03.readUnixG_negMs", "readUnixTime(-k/1000), k whole, = negStamp (k div 1000) (-(k mod 1000)): the explicit stamp on a whole number of milliseconds before 1970"),
         ("TracklibVerif.Props.C03Before1970", "TV.C03.addSecG_before1970_back", "addSec(k), k whole, from a well-formed stamp to 1970 or before: toAbsTime() of the (ill-formed) result is exactly toAbsTime()+k, and addSec(-k) on it returns the stamp one started from"),
         ("TracklibVerif.Props.C03Before1970", "TV.C03.convertToZoneG_before1970_back", "convertToZone to a target at or before 1970 and back to the zone one came from returns the stamp and label one started from"),
+        ("TracklibVerif.Props.C03Before1970", "TV.C03.addG_before1970_spec", "readUnixTime(toAbsTime() + a*c) for ANY scalar amount and stamp when that instant is 1970 or before: the stamp of readUnixG_before1970, toAbsTime() of it within one millisecond of the instant asked for, toward zero"),
+        ("TracklibVerif.Props.C03Before1970", "TV.C03.addSecG_before1970_spec", "addSec(a), any scalar a (fractional included), leading to 1970 or before: that stamp, within 1 ms toward zero"),
+        ("TracklibVerif.Props.C03Before1970", "TV.C03.addMinHourDayG_before1970_spec", "the same for addMin (a*60), addHour (a*3600), addDay (a*86400)"),
         ("TracklibVerif.Props.C03Before1970", "TV.C03.addSecG_total", "addSec(k), k whole, from a well-formed stamp with NO domain hypothesis: shiftMsZ t (1000k) - the integer model's stamp when the target is not before 1970, the negated decomposition when it is"),
         ("TracklibVerif.Props.C03Before1970", "TV.C03.convertToZoneG_total", "convertToZone(z) on a well-formed stamp labelled z0, whatever the target: shiftMsZ t (3 600 000 (z - z0)) labelled z (Z3 without 'not before 1970')"),
         ("TracklibVerif.Props.C03Before1970", "TV.C03.convertToTimeZone_total", "Track.convertToTimeZone(z) on any track of well-formed stamps, targets on both sides of 1970: stamp by stamp shiftMsZ (Z8 without its domain hypothesis)"),
@@ -219,7 +222,7 @@ class P(Prop):
                        "Before 1970 is outside the statement (seconds since 1970): this tree returns negative fields for a negative number of seconds and counts a year before 1970 as 1970 in toAbsTime(); "
                        "the models mirror that and Props/C03Before1970.lean PROVES what is returned there in exact arithmetic (which stamp, that it is ill formed from one millisecond before 1970 on, that the instant is kept "
                        "to within a millisecond toward zero, that addSec / convertToZone there and back is the identity; addSec(k whole) / convertToZone / Track.convertToTimeZone / Track.addSeconds as total functions on well-formed stamps, both sides of 1970); no oracle clause speaks about it (a tree that handled such dates correctly would only break the "
-                       "correspondence). Still open there: IEEE rounding before 1970 (Float correspondence only) and fractional amounts of addSec..addDay leading before 1970 (only the 1 ms bracket of readUnixG_before1970_instant). "
+                       "correspondence). Fractional amounts of addSec..addDay leading before 1970: the 1 ms bracket toward zero (addSecG_before1970_spec). Still open there: IEEE rounding before 1970 (Float correspondence only). "
                        "TrackCollection.convertToTimeZone (calls Track.convertToZone, which does not exist) and Track.roundTimestamps (calls ObsTime.round, which does not exist) raise AttributeError on every input: not modelled, not generated"]
     modelled = ("tracklib/core/obs_time.py: ObsTime.readUnixTime on a float argument, operation for operation (readUnixG: year loop on `elapsed - sec` with the integer accumulator, "
                 "month loop, int(e/86400), int(e/3600), int(e/60), int(e), ms = int(frac*1000)) and on integers (readUnixSec/readUnixMs); toAbsTime (integer `seconds`, then "
